@@ -3,6 +3,7 @@
 #   tools/seeded.sh import <name> <srcdir>     copy patch.diff + demonstration + notes from an agent's SEEDED dir to seeded/<name>/
 #   tools/seeded.sh verify <name>              fresh scratch worktree: patch applies, builds, 1111 tests pass, demo fails with / passes without
 #   tools/seeded.sh detect <name> <Cxx>...     apply to /repo, run the given quick checks, undo; prints DETECTED/missed per check
+#   tools/seeded.sh sdetect <name> <Cxx>...    the same against a scratch copy of /repo/src under /var/tmp (VERIF_REPO), /repo untouched
 set -u
 ROOT=$(cd "$(dirname "$0")/.." && pwd)
 cmd=$1; name=$2; shift 2
@@ -38,5 +39,16 @@ detect)
     if [ $rc -eq 1 ] && grep -q "^VIOLATION property=$c" <<<"$out"; then echo "$name $c: DETECTED [$cls] $(grep -m1 -A2 '^VIOLATION' <<<"$out" | tail -1 | cut -c1-300)"; else echo "$name $c: missed (rc=$rc) $(tail -1 <<<"$out" | cut -c1-200)"; fi
   done
   git -C /repo checkout -- . ; rm -rf /var/tmp/lbzsim-seeded-evidence
+  ;;
+sdetect)
+  SCR=/var/tmp/lbzsim-seeded-$name
+  rm -rf $SCR; mkdir -p $SCR; cp -r /repo/src $SCR/src
+  ( cd $SCR && patch -s -p1 < "$D/patch.diff" ) || { echo "patch does not apply"; rm -rf $SCR; exit 2; }
+  for c in "$@"; do
+    out=$(cd $ROOT && VERIF_REPO=$SCR VERIF_EVIDENCE_DIR=/var/tmp/lbzsim-seeded-evidence-$name VERIF_REPLAY_DIR=replays/seeded-$name ./check $c ${SEEDED_TIER:-quick} 2>&1); rc=$?
+    cls=$(grep -m1 '^  class=' <<<"$out" | sed 's/^  //')
+    if [ $rc -eq 1 ] && grep -q "^VIOLATION property=$c" <<<"$out"; then echo "$name $c: DETECTED [$cls] $(grep -m1 -A2 '^VIOLATION' <<<"$out" | tail -1 | cut -c1-300)"; else echo "$name $c: missed (rc=$rc) $(tail -1 <<<"$out" | cut -c1-200)"; fi
+  done
+  rm -rf $SCR /var/tmp/lbzsim-seeded-evidence-$name
   ;;
 esac
